@@ -195,7 +195,13 @@ func runC05(b *runner.Batch) {
 			o.signers, o.alpha, o.sdesc = alpha, true, "alphabet"
 		}
 		reused := false
-		if o.kind == "putnamed" {
+		if o.kind == "putnamed" && o.name == "" {
+			b.Hit("putNamed-without-a-name")
+			if o.zone != "" {
+				b.Hit("putNamed-without-a-name-with-a-zone")
+			}
+		}
+		if o.kind == "putnamed" && o.name != "" {
 			// mostly fresh names so that the fee, not the name, decides; sometimes a freed, still registered domain
 			switch {
 			case len(freed) > 0 && r.IntN(2) == 0:
